@@ -115,8 +115,61 @@ fn transform(u: &mut Choices, f: &File, doc: &V) -> Option<Xform> {
     let mut g = f.clone();
     let c0 = clause_at(&mut g, &s).clone();
     let fresh = "zv".to_string();
-    let kind = u.below(13);
+    let kind = u.below(15);
     match kind {
+        13 | 14 => {
+            // a variable in the *condition* of a `when` block inside a rule: the condition is written
+            // outside the block, so it sees the definition at rule / file level; a `let` of the same
+            // name inside the guarded block (kind 14; never referred to there) must not reach it
+            let mut whens = vec![];
+            for (ri, r) in g.rules.iter().enumerate() {
+                for (li, line) in r.body.iter().enumerate() {
+                    for (ai, it) in line.iter().enumerate() {
+                        if let Item::When { cond, .. } = it {
+                            for (cl, cline) in cond.iter().enumerate() {
+                                for (ca, cit) in cline.iter().enumerate() {
+                                    if let Item::Clause(Clause { kind: Kind::Binary { rhs: Expr::Lit(_), .. }, .. }) = cit {
+                                        whens.push((ri, li, ai, cl, ca));
+                                    }
+                                }
+                            }
+                        }
+                    }
+                }
+            }
+            if whens.is_empty() {
+                return None;
+            }
+            let (ri, li, ai, cl, ca) = whens[u.below(whens.len())];
+            let at_file = u.chance(1, 2);
+            let mut lit = None;
+            if let Item::When { cond, lets, .. } = &mut g.rules[ri].body[li][ai] {
+                if let Item::Clause(c) = &mut cond[cl][ca] {
+                    if let Kind::Binary { rhs, .. } = &mut c.kind {
+                        if let Expr::Lit(l) = rhs.clone() {
+                            lit = Some(l);
+                        }
+                        *rhs = Expr::Query { some: false, q: var_q(&fresh, vec![]) };
+                    }
+                }
+                if kind == 14 {
+                    lets.push(Let { name: fresh.clone(), value: Expr::Lit(Lit::V(V::s("inner-shadowing"))) });
+                }
+            }
+            let l = lit?;
+            let lt = Let { name: fresh, value: Expr::Lit(l.clone()) };
+            if at_file {
+                g.lets.push(lt);
+            } else {
+                g.rules[ri].lets.push(lt);
+            }
+            return Some(Xform {
+                kind: if kind == 14 { "when-condition-shadowed-inside" } else { "when-condition" },
+                file: g,
+                note: format!("literal {} in the condition of a when block -> let at {} level{}", lit_text(&l), if at_file { "file" } else { "rule" }, if kind == 14 { " + a let of the same name inside the block" } else { "" }),
+                resolves: true,
+            });
+        }
         0 | 1 => {
             // literal on the right-hand side -> variable
             if let Kind::Binary { rhs: Expr::Lit(l), .. } = &c0.kind {
